@@ -26,9 +26,11 @@ from vlib import MachineryError, log
 
 SPEC = "CoroSched"
 TLC_WORKERS = 4
-ALL_CONFIGS = ("resolve", "fanout", "spawn", "bound", "park", "mutex", "queue", "mixed", "nested")
+ALL_CONFIGS = ("resolve", "fanout", "spawn", "bound", "park", "mutex", "queue", "mixed", "nested", "accum", "pool", "wide")
 # an event <<c, i, kind, <<x, y, ...>>, mode>> whose deque snapshot holds at least two coroutines
-RICH_RE = re.compile(r'<<\d+, \d+, "[bsefr]", <<\d+, \d+')
+RICH_RE = re.compile(r'<<\d+, \d+, "[bsefrw]", <<\d+, \d+')
+# set by run(): the replayer was built without the probes of the deque's representation
+NO_PRIVATE = False
 
 # cfg file -> actions that must have fired (vacuity guard; "entered from normal code" = Nat*,
 # "from inside another coroutine" = Spawn*)
@@ -47,18 +49,41 @@ CONFIGS = {
                "SpawnDetachDiscard", "StartNested", "StartReturn", "Return"],
     "fanout": ["NatSpawn", "NatResolve", "IqNext", "Flush", "IqExit", "Pause", "ResolveDiscard", "ResolveAwait",
                "AwaitFuture", "Return"],
+    # a suspend point VARIABLE reused through operator= / << (merge), awaited, cleared, or flushed by its destructor
+    "accum": ["NatSpawn", "NatResolve", "Flush", "IqExit", "HoldProm", "HoldDetach", "HoldAwait", "HoldFlush",
+              "AwaitFuture", "Return"],
+    # every public way onto a thread pool's worker (co_await pool, pool.resume(sp), co_await pool(awaitable),
+    # pool.run(async)) and what the coroutine does THERE (resolve + discard, pause): coroutine mode on the worker
+    "pool": ["NatSpawn", "NatResolve", "Flush", "IqExit", "PoolCoro", "PoolObs", "PoolEnd", "PoolHop", "PoolResume",
+             "PoolAwait", "PoolRun", "Pause", "ResolveDiscard", "AwaitFuture", "Return"],
+    # fixed family of long histories of one ready deque (up to 40 coroutines ready at once after a partial drain)
+    "wide": ["NatSpawn", "Flush", "IqExit", "Pause", "SpawnDetachDiscard", "Return"],
     "mixed": ["NatSpawn", "NatResolve", "IqNext", "Flush", "IqExit", "Pause", "ResolveDiscard", "ResolveAwait",
               "AwaitFuture", "SpawnDetachDiscard", "SpawnDetachAwait", "SpawnCoAwait", "Return"],
 }
 
 
 def terminal_projection(s):
+    ev = s["ev"]
+    queue = s["queue"]
+    if NO_PRIVATE:
+        # degraded build: the replayer reports every deque snapshot as empty
+        ev = [[e[0], e[1], e[2], [], e[4]] for e in ev]
+        queue = []
     return {
         "script": s["script"],
-        "ev": s["ev"],
-        "final": {"queue": s["queue"], "inst": 1 if s["inst"] else 0, "nrs": s["nrs"], "st": s["st"]},
+        "ev": ev,
+        "final": {"queue": queue, "inst": 1 if s["inst"] else 0, "nrs": s["nrs"], "st": s["st"]},
         "errors": [],
     }
+
+
+def short_program(txt, limit=420):
+    """programs of the wide family are long: abbreviate for messages and keys (the artefact has the full text)"""
+    if len(txt) <= limit:
+        return txt
+    import hashlib
+    return "%s...[%d chars, sha1 %s]" % (txt[:limit - 60], len(txt), hashlib.sha1(txt.encode()).hexdigest()[:10])
 
 
 def first_difference(line):
@@ -70,7 +95,7 @@ def first_difference(line):
         e, g = json.loads(m.group(1)), json.loads(m.group(2))
     except ValueError:
         return line[:300]
-    out = "program %s: " % vlib.canon(e.get("script"))
+    out = ""
     ee, ge = e.get("ev", []), g.get("ev", [])
     for i in range(max(len(ee), len(ge))):
         a = ee[i] if i < len(ee) else None
@@ -82,15 +107,15 @@ def first_difference(line):
     if e.get("final") != g.get("final"):
         out += "final state: specification %s, implementation %s; " % (vlib.canon(e.get("final")), vlib.canon(g.get("final")))
     if g.get("errors"):
-        out += "replayer checks: %s" % "; ".join(g["errors"])
-    return out
+        out += "replayer checks: %s; " % "; ".join(g["errors"])
+    return out + "program %s" % short_program(vlib.canon(e.get("script")))
 
 
 def leaves_and_preds(g):
     """terminal states (= complete programs) and the predecessor relation.  With the history variable the
     graph is a tree except where two orders of native bookkeeping steps meet again in the same state."""
-    if len(g.init) != 1:
-        raise MachineryError("CoroSched: expected exactly one initial state, got %d" % len(g.init))
+    if len(g.init) < 1:
+        raise MachineryError("CoroSched: no initial state in the dumped graph")
     preds = {}
     leaves = []
     for n, es in g.edges.items():
@@ -146,7 +171,7 @@ def run_programs(ctx, rp, tag, states):
         for k, s in enumerate(states):
             if s.get("nph") != "done":
                 raise MachineryError("CoroSched/%s: terminal state that is not the end of a program: %s" % (tag, vlib.canon(s)[:600]))
-            f.write("BEGIN %s_%d %s\n" % (tag, k, vlib.canon({"swap": k % 4 == 3})))
+            f.write("BEGIN %s_%d %s\n" % (tag, k, vlib.canon({"swap": k % 4 == 3, "pool": any(e[2] == "w" for e in s["ev"])})))
             f.write("Run\t%s\n" % vlib.canon(terminal_projection(s)))
             f.write("END\n")
             nsteps += len(s["ev"])
@@ -156,14 +181,14 @@ def run_programs(ctx, rp, tag, states):
 
     def program_of(txt, sid):
         m = re.search(r'"script":(\{.*?\})\}', txt)
-        return m.group(1) if m else sid
+        return short_program(m.group(1)) if m else sid
 
     if pr["summary"] is None:
         done = pr["ok"] + len(pr["diverged"]) + len(pr["errors"])
         sid = "%s_%d" % (tag, done)
         txt = "#replayer corosched_replay\n" + scenario_text(script, sid)
         tail = out[-1500:]
-        tail = "\n".join(l for l in tail.splitlines() if not l.startswith("OK "))
+        tail = "\n".join(l[:300] for l in tail.splitlines() if not l.startswith("OK "))
         ctx.violation("crash:%s:%s" % (SPEC, program_of(txt, sid)),
                       "replayer terminated abnormally (rc=%s) while running program %s of %s/%s: %s" % (
                           rc, program_of(txt, sid), SPEC, tag, tail),
@@ -188,7 +213,7 @@ def run_programs(ctx, rp, tag, states):
         pass
 
 
-def replay_config(ctx, rp, name, tag=None, constants=None, max_programs=None):
+def replay_config(ctx, rp, name, tag=None, constants=None, max_programs=None, must_skip=()):
     """TLC exhaustive on the configuration with the state graph dumped; every terminal state (quick: a
     sample) is run on the implementation"""
     tag = tag or name
@@ -196,7 +221,7 @@ def replay_config(ctx, rp, name, tag=None, constants=None, max_programs=None):
     dot = os.path.join(vlib.BUILD, "%s_%s.dot" % (ctx.prop, tag))
     try:
         res = ctx.tlc(SPEC, SPEC, cfg_path, tag, dump_dot=dot, workers=TLC_WORKERS, timeout=3000)
-        ctx.check_coverage(res, CONFIGS[name], "%s/%s" % (SPEC, tag))
+        ctx.check_coverage(res, [a for a in CONFIGS[name] if a not in must_skip], "%s/%s" % (SPEC, tag))
         if res.violation:
             ctx.tlc_violation(res, "%s:%s" % (SPEC, tag))
             return
@@ -312,12 +337,26 @@ def nested_strict_probe(ctx):
 
 
 def run(ctx):
-    rp = vlib.compile_harness(vlib.VERIF + "/harness/corosched_replay.cpp", "corosched_replay", sanitize=not ctx.quick)
+    global NO_PRIVATE
+    rp = vlib.compile_harness(vlib.VERIF + "/harness/corosched_replay.cpp", "corosched_replay", sanitize=not ctx.quick,
+                              fallback_defines=["COROSCHED_NO_PRIVATE"])
+    NO_PRIVATE = bool(vlib.compile_harness.last_fallback)
+    ctx.extra["replayer_build"] = "no-private fallback (no deque snapshots)" if NO_PRIVATE else "full"
+    if NO_PRIVATE:
+        log("  note: the replayer does not compile with its probe of the ready deque's representation; fallback build "
+            "without deque snapshots (event history, coroutine mode and counters only)")
+        ctx.assume("corosched replay built WITHOUT the probe of the ready deque's representation (it changed and the full "
+                   "harness no longer compiles): the content of the deque at each event is not compared, only the event "
+                   "history, the coroutine-mode/thread flag and the per-coroutine counters")
     S3 = {"MaxSteps": 3}
     if ctx.quick:
         cap = 3000
         for name in ALL_CONFIGS:
-            replay_config(ctx, rp, name, max_programs=cap)
+            if name == "queue":
+                # quick: queue<void> push/pop without pause() steps (a quarter of the graph; the full one is in thorough)
+                replay_config(ctx, rp, name, constants={"Kinds": '{"qo", "qd", "qa"}'}, max_programs=cap, must_skip=("Pause",))
+            else:
+                replay_config(ctx, rp, name, max_programs=cap)
     else:
         # exhaustive, every program replayed (address/UB sanitizers on)
         for name in ALL_CONFIGS:
@@ -329,6 +368,11 @@ def run(ctx):
         replay_config(ctx, rp, "queue", "queue_nat4", dict(NatSteps=4))
         replay_config(ctx, rp, "spawn", "spawn_s3", S3)
         replay_config(ctx, rp, "bound", "bound_s3", S3)
+        replay_config(ctx, rp, "pool", "pool_n3", dict(N=3))
+        replay_config(ctx, rp, "pool", "pool_nat", dict(N=3, Roots=3, NatSteps=4, MaxSteps=1, NatKinds='{"sd", "pr", "rd"}',
+                                                        Kinds='{"po", "pr", "pw", "px", "rd", "pa", "aw"}'))
+        replay_config(ctx, rp, "accum", "accum_pa", dict(Kinds='{"ha", "hm", "hd", "hw", "hf", "aw", "pa"}'))
+        replay_config(ctx, rp, "accum", "accum_n4", dict(N=4, Roots=1, NatSteps=1))
         # bigger bounds on the specification only
         tlc_only(ctx, "resolve", "resolve_s3_all", S3)
         tlc_only(ctx, "resolve", "resolve_k2s3", dict(S3, K=2, Prune="TRUE"))
@@ -337,6 +381,10 @@ def run(ctx):
         tlc_only(ctx, "mixed", "mixed_s3", S3)
         # random programs far beyond the exhaustive bound, invariants checked and every program replayed
         simulate_replay(ctx, rp, "big", "sim_big", None, num=4000)
+        simulate_replay(ctx, rp, "pool", "sim_pool", dict(
+            N=4, MaxSteps=4, K=2, Roots=3, NatSteps=5,
+            Kinds='{"po", "pr", "pw", "px", "rd", "ra", "aw", "pa", "sd", "sa", "ha", "hm", "hd", "hw", "hf"}',
+            NatKinds='{"sd", "rd", "pr"}'), num=2000)
         simulate_replay(ctx, rp, "mutex", "sim_mutex", dict(N=4, MaxSteps=5, K=2, NatSteps=6), num=2000)
         simulate_replay(ctx, rp, "nested", "sim_nested", dict(
             N=5, MaxSteps=5, K=2, Roots=3, NatSteps=5,
@@ -348,7 +396,10 @@ def run(ctx):
               "spawn_inside_coroutine"):
         if not sh.get(k):
             raise MachineryError("vacuous replay: no replayed program exercises '%s'" % k)
-    ctx.assume("one thread; no join()/blocking wait and no user call of install_queue_and_call inside a coroutine")
+    ctx.assume("thread pool programs: ONE worker; the harness parks the worker while the native thread executes and waits "
+               "while the worker executes, so the two threads (two thread-local ready queues) never run at the same "
+               "time; stopped-pool / cancellation paths belong to C11")
+    ctx.assume("one native thread (plus that worker); no join()/blocking wait inside a coroutine and no user call of install_queue_and_call inside a coroutine")
     ctx.assume("future-returning start() (a child resumed nested inside its caller, configuration `nested`): 'the running "
                "coroutine' is read as the innermost activation; under the letter-strict reading (nothing the caller made "
                "ready runs before the CALLER suspends) the library does not hold, see coverage.nested_start_strict_reading")
